@@ -624,7 +624,7 @@ def run(repo, rep):
         for fn in list(cls_.methods.values()) + list(cls_.setters.values()):
             if not any(isinstance(n, (ast.Assign, ast.AugAssign, ast.Delete)) and 'dimse_decoder' in norm(n) for n in ast.walk(fn.node)):
                 continue
-            if repo.is_helper(fn):
+            if repo.is_helper(fn) and any(h_[1] == fn.key for h_ in repo.normalized_helpers):
                 continue          # judged where the helper is inlined, with the conditions of the calling path
             rep.analysed(fn)
             c7 = SymClient(repo, fn, event_of=lambda *a: None, hierarchy=hier,
